@@ -3,10 +3,12 @@
 TLC   : DTCWT2 - the layout produced by stack(dim=o) / stack(dim=ri) and the (h_dim, w_dim) tables of
         get_dimensions5 / get_dimensions6 against the declarative meaning (O at o_dim mod 6, RI at ri_dim mod 6,
         N, C, H, W in order elsewhere) for all 120 ordered pairs in (-6..5)^2 with distinct residues (the 30 layouts
-        and every negative alias); PrefixOK over the pyramid machine.
+        and every negative alias); PrefixOK over the pyramid machine; the mask machine (api "fwdm": skip_hps and include_scale
+        as per-level sets, jointly): MaskSelectOK - the options select outputs and never change the level loop.
 S->C  : all 120 pairs on real tensors: subbands bitwise equal to the default subbands with the axes moved where TLC's
         layout says, inverse with the same pair reconstructs what the default inverse reconstructs; every skip mask and
-        include mask of length J (bitwise), every prefix j <= J.
+        include mask of length J (bitwise), every prefix j <= J; every TLC-enumerated (size, J, skip set, include set)
+        jointly: kind of yl, placeholders, shapes, values against the plain transform and the shorter transforms.
 """
 from .. import dtchecks
 from ..findings import Findings
@@ -23,6 +25,11 @@ def run(rep):
                             HWCodes=dtchecks.models.code(dtchecks.models.sq(2, 12)))
     dtchecks.options_replay(rep, fnd, res2.records, "C12", rep.tier)
     dtchecks.masks_and_prefixes(rep, fnd, "C12", rep.tier)
+    # the mask machine: every (size, J, skip set, include set) jointly, enumerated by TLC
+    hw = {(8, 8), (10, 12), (5, 7), (12, 20)} if rep.tier == "quick" else dtchecks.models.sq(2, 9) | {(12, 20), (10, 14), (24, 6)}
+    res3 = dtchecks.run_dt2(rep, rep.tier, ["MaskSelectOK", "FwdPyramidOK"], {"fwdm"}, label="DTCWT2.masks",
+                            HWCodes=dtchecks.models.code(hw), JMax=3 if rep.tier == "quick" else 4)
+    dtchecks.masks_replay(rep, fnd, res3.records, "C12", rep.tier)
     rep.assumptions += ["values are compared bitwise with the default-layout run of the same input (same kernels, same order)"]
 
 
